@@ -7,7 +7,8 @@ package pubsub
 // Publish: a message that fails local validation (including a duplicate) never reaches the
 // send queue; a duplicate reports success; any other validation error is returned.
 //@ func (*Topic).Publish
-//@   property C02 C04
+//@   property C02 C04 C14
+//@   cancellable
 //@   noframe
 //@   ensures validated-once: calls((*Topic).validate) == old(calls((*Topic).validate)) + 1
 //@   ensures failed-not-sent: lastret((*Topic).validate, 1) != nil ==> calls((*validation).sendMsgBlocking) == old(calls((*validation).sendMsgBlocking))
@@ -17,7 +18,8 @@ package pubsub
 //@        lastarg((*validation).sendMsgBlocking, 1) == lastret((*Topic).validate, 0) && result == lastret((*validation).sendMsgBlocking)
 
 //@ func (*Topic).AddToBatch
-//@   property C02 C04
+//@   property C02 C04 C14
+//@   cancellable
 //@   noframe
 //@   ensures validated-once: calls((*Topic).validate) == old(calls((*Topic).validate)) + 1
 //@   ensures failed-not-added: lastret((*Topic).validate, 1) != nil ==> calls((*MessageBatch).add) == old(calls((*MessageBatch).add))
@@ -85,7 +87,8 @@ package pubsub
 // NextPeerEvent returns only events pulled from the log (or the context's error); an event
 // leaves the log only in the call that returns it.
 //@ func (*TopicEventHandler).NextPeerEvent
-//@   property C18
+//@   property C18 C14
+//@   cancellable
 //@   modifies monitor(TopicEventHandler.evtLogMx)
 //@   loop 1 invariant nothing-pulled: !held(t.evtLogMx) &&
 //@        (calls((*TopicEventHandler).pullFromEventLog) == old(calls((*TopicEventHandler).pullFromEventLog)) || !lastret((*TopicEventHandler).pullFromEventLog, 1))
